@@ -51,6 +51,7 @@ func cmdRun(args []string) {
 	verbose := fs.Bool("v", false, "verbose")
 	doReplay := fs.Bool("replay", false, "replay candidates natively")
 	quiet := fs.Bool("q", false, "print only harnesses with something to report")
+	tierFlag := fs.String("tier", "quick", "quick|thorough: which bounds the harnesses and the stretch model use")
 	fs.Parse(args)
 	w, err := loadWorld(nil)
 	if err != nil {
@@ -58,6 +59,7 @@ func cmdRun(args []string) {
 		os.Exit(2)
 	}
 	fmt.Fprintf(os.Stderr, "loaded in %.1fs, ssa %.1fs\n", w.loadSecs, w.buildSecs)
+	currentTier = *tierFlag
 	ex, err := newExplorer(w, bounds{MaxPaths: *maxPaths, MaxSteps: 20_000_000, TimeoutMs: *timeout, Workers: *workers, MaxSeconds: *maxSec}, *solverName)
 	if err != nil {
 		fmt.Fprintln(os.Stderr, err)
